@@ -105,8 +105,8 @@ PROPS["C18"] = {
 }
 
 PROPS["C17"] = {
-    "streams": [{"name": "c17", "n_quick": 800, "n_thorough": 20000}],
-    "level_text": "C17_load / C17_accept_iff: load accepts exactly the documents that are a PodSecurityConfiguration of a served version with no unknown or duplicated member at any level, and yields the stated values with omitted (or empty) defaults = privileged/latest; C17_version_independent / C17_unserved_rejected; C17_empty_is_all_defaults; C17_validate_iff: validation has no errors iff the six defaults parse and namespaces are unique DNS-1123 labels, runtime classes unique DNS-1123 subdomains, user names non-empty and unique (validators modelled character by character, incl. the 63/253 limits); C17_errors_located; C17_chain: valid => ToPolicy succeeds and an unlabelled namespace resolves to exactly that policy. Each abstract document is rendered as JSON and as YAML, loaded by load.LoadFromData, validated, and an Admission is completed/validated from it and its default policy observed.",
+    "streams": [{"name": "c17", "n_quick": 800, "n_thorough": 20000}, {"name": "c17e2e", "n_quick": 480, "n_thorough": 8000}],
+    "level_text": "C17_load / C17_accept_iff: load accepts exactly the documents that are a PodSecurityConfiguration of a served version with no unknown or duplicated member at any level, and yields the stated values with omitted (or empty) defaults = privileged/latest; C17_version_independent / C17_unserved_rejected; C17_empty_is_all_defaults; C17_validate_iff: validation has no errors iff the six defaults parse and namespaces are unique DNS-1123 labels, runtime classes unique DNS-1123 subdomains, user names non-empty and unique (validators modelled character by character, incl. the 63/253 limits); C17_errors_located; C17_chain: valid => ToPolicy succeeds and an unlabelled namespace resolves to exactly that policy. Each abstract document is rendered as JSON and as YAML, loaded by load.LoadFromData, validated, and an Admission is completed/validated from it and its default policy observed. Stream c17e2e is the full stack: the document through LoadFromData and cmd/webhook/server.Setup (production wiring over a stub API server), then AdmissionReview bodies through HandleValidate; the model composes load, to_policy, validate_config (Model/Deploy.v: deploy), world_of and handle; the relation reads the enforced policy and exemptions off the document by Spec/P17.v (C17_end_to_end).",
     "level_note": "Trusted: Coq kernel; Model/Config.v (strict decoding is modelled as 'no unknown / duplicated member' over an abstract member list; the real strict codec, YAML->JSON conversion and scheme conversion are exercised by the stream, not modelled); the harness renderers. Hypothesis well_tagged: an abstract 'unknown' member does not carry one of the four reserved names (an artefact of the abstraction; C17_accept_iff_needs_hyp). No axioms.",
     "assumptions": ["documents are JSON objects / YAML mappings with string and string-list values (other shapes are the 'malformed' class)"],
 }
